@@ -19,7 +19,7 @@ UNIT = {
         ('yash-env/src/io.rs', ['impl Fd']),
         (PL, ['struct PipeSet'], {'pub_fields': True, 'vis': 'pub'}),
         ('@file', 'prelude.rs'),
-        (PL, ['impl PipeSet', 'fn shift'], {'ret': 'r',
+        (PL, ['impl PipeSet', 'fn shift'], {'ret': 'r', 'rewrites': ['let-chain-nest?'],
             'requires': ['exists|base: Map<Fd, int>| psinv(*old(self), old(env).system.table(), base)'],
             'ensures': [
                 # whatever happens, nothing that was open before the pipeline is touched, and (if closing works) the parent holds
